@@ -1,6 +1,9 @@
 """C16 batching executors: scripted Add / Tick / Advance / Flush / Wait histories and gated concurrent
 phases against BulkExecutor / ChunkExecutor (PeriodicalExecutor underneath) on a driver-owned ticker and
 the virtual clock.  Interface: see props/c13.py."""
+import itertools
+
+import vlib
 from vlib import cZ, cnat, cbool, clist, cpair
 
 ID = "C16"
@@ -37,7 +40,8 @@ RULE = ("scripts of 4-26 operations over unique task ids: Add (bulk maxTasks 1-4
         "35% of the scripts contain one or two gated concurrent phases with 1-4 adder goroutines (1-6 Adds each) "
         "and optionally a goroutine issuing ticks and Flushes; every script ends with Wait; 9 directed scripts per "
         "run (threshold boundary, idle quit + restart, tick racing a threshold Add after an idle period, Wait "
-        "directly after Add). non-trivial = at least 3 tasks, at least 2 batches and (a flusher quit, or a "
+        "directly after Add); thorough tier adds every script of <= 5 operations over {add, tick, flush, advance 11} "
+        "(<= 4 tasks, <= 3 ticks) for maxTasks 1 and 2 and runs the driver under the race detector. non-trivial = at least 3 tasks, at least 2 batches and (a flusher quit, or a "
         "concurrent phase, or both a threshold batch and a tick/flush batch); distinct = distinct canonical case JSON")
 TRUSTED = ["driver-owned timex.Ticker injected through PeriodicalExecutor.newTicker; Chan()/Stop() and a delegating "
            "TaskContainer wrapper are the settle hooks (no sleeps on the success path)",
@@ -144,8 +148,39 @@ def _directed(rng):
     return out
 
 
+def _exhaustive():
+    """every script of <= 5 operations over {add, tick, flush, advance 11} (<= 4 tasks, <= 3 ticks), + Wait,
+    for bulk maxTasks 1 and 2"""
+    out = []
+    for mx in (1, 2):
+        for ln in range(1, 6):
+            for combo in itertools.product(("add", "tick", "flush", "advance"), repeat=ln):
+                if combo.count("add") > 4 or combo.count("tick") > 3 or combo.count("add") == 0:
+                    continue
+                ids = _Ids()
+                ops = []
+                for k in combo:
+                    if k == "add":
+                        ops.append({"op": "add", "id": ids.next()})
+                    elif k == "advance":
+                        ops.append({"op": "advance", "n": 11})
+                    else:
+                        ops.append({"op": k})
+                ops.append({"op": "wait"})
+                out.append({"chunk": False, "max": mx, "ops": ops})
+    return out
+
+
+def drive(cases, tier):
+    """thorough tier: the driver runs under the race detector"""
+    return vlib.run_driver(GO_PKG, cases, name=ID + ("s" if tier == "search" else ""), timeout=DRIVER_TIMEOUT,
+                           race=(tier == "thorough"))
+
+
 def generate(rng, tier, n):
     cases = _directed(rng)
+    if tier == "thorough":
+        cases += _exhaustive()
     while len(cases) < n:
         chunk, mx = _cfg(rng)
         ids = _Ids()
@@ -258,9 +293,35 @@ def bucket(case, obs):
 
 
 def classify(case, obs):
-    if any(o["op"] == "waitrace" for o in case["ops"]):
-        return "wait-overlapping-threshold-add"
-    return None
+    """KNOWN finding class: a Wait that overlaps another goroutine's threshold-reaching Add returns before a task
+    whose Add had returned earlier has executed.  The class applies only when that is the ONLY anomaly of the case:
+    nothing hung, every added task executed exactly once, in add order, batches within the bulk bound, and the
+    early Wait is the one issued by the waitrace operation itself (so any other violation is still reported)."""
+    if not any(o["op"] == "waitrace" for o in case["ops"]):
+        return None
+    if obs.get("hung") or obs.get("pending"):
+        return None
+    added = [a["id"] for a in obs.get("adds", [])]
+    executed = [i for b in obs.get("batches", []) for i in b["ids"]]
+    if sorted(added) != sorted(executed) or len(set(executed)) != len(executed):
+        return None
+    if not case.get("chunk") and any(len(b["ids"]) > case["max"] for b in obs["batches"]):
+        return None
+    end_of = {i: b["end"] for b in obs["batches"] for i in b["ids"]}
+    early = []
+    for w in obs.get("calls", []):
+        if w["kind"] != "wait":
+            continue
+        for a in obs["adds"]:
+            if a["ret"] < w["call"] and end_of[a["id"]] > w["ret"]:
+                early.append((w["call"], a["id"]))
+    if not early:
+        return None
+    # only the first wait (the one racing the threshold Add) may be early
+    first_wait = min(w["call"] for w in obs["calls"] if w["kind"] == "wait")
+    if any(wc != first_wait for wc, _ in early):
+        return None
+    return "wait-overlapping-threshold-add"
 
 
 def explain(case, obs):
